@@ -71,7 +71,8 @@ PROPS["C19"] = {
     "functions_encoded": [
         "cfgrammar::NewlineCache::new", "NewlineCache::feed", "NewlineCache::feed_len",
         "NewlineCache::byte_to_line_num", "NewlineCache::line_num_to_byte", "NewlineCache::byte_to_line_byte",
-        "NewlineCache::byte_to_line_num_and_col_num", "NewlineCache::span_line_bytes",
+        "NewlineCache::byte_to_line_num_and_col_num", "NewlineCache::span_line_bytes", "NewlineCache::from_str",
+        "lrlex::LRNonStreamingLexer::{new, span_lines_str, line_col}",
     ],
     "bounds": {
         "quick": "query harnesses: ANY cache state satisfying the representation invariant with exactly k lines, "
@@ -86,7 +87,8 @@ PROPS["C19"] = {
     "outside_claim": [
         "query states with more than 6 lines (feed itself is covered inductively for any number of lines)",
         "texts longer than 4 characters for columns",
-        "NonStreamingLexer::{line_col, span_lines_str} (slicing on top, needs a regex-built lexer)",
+        "how lrlex's lexer fills the cache while lexing (LRNonStreamingLexerDef::lexer: regex); the lexer-level "
+        "queries span_lines_str / line_col themselves are covered through LRNonStreamingLexer::new",
         "LexParseError::pp padding (float log10, format!)",
         "offsets >= 2^40",
     ],
@@ -120,6 +122,9 @@ PROPS["C19"] = {
         I("c19::c19_feed_k3_w141", "thorough", bounds="3 lines + widths [1,4,1]"),
         I("c19::c19_feed_k3_w1111", "thorough", bounds="3 lines + widths [1,1,1,1]"),
         I("c19::c19_feed_k2_w1211", "thorough", bounds="2 lines + widths [1,2,1,1]"),
+        I("c19::c19_lex_w11", bounds="lrlex LRNonStreamingLexer::{span_lines_str, line_col}, widths [1,1], every span"),
+        I("c19::c19_lex_w111", "thorough", bounds="lexer-level queries, widths [1,1,1]", est_gb=8),
+        I("c19::c19_lex_w121", "thorough", bounds="lexer-level queries, widths [1,2,1]", est_gb=14, mem_gb=30),
         I("c19::c19_col_w11", bounds="widths [1,1]"),
         I("c19::c19_col_w111", bounds="widths [1,1,1]", est_gb=5),
         I("c19::c19_col_w121", "thorough", bounds="widths [1,2,1]", no_cover=["CR LF"], est_gb=8),
